@@ -12,6 +12,7 @@ import (
 	"sort"
 	"strings"
 	"sync"
+	"sync/atomic"
 	"testing"
 	"time"
 
@@ -34,7 +35,7 @@ type C09Case struct {
 var c09Sizes = []int{0, 10, 4000, 4090, 4096, 4100, 8192, 65500, 65536, 65600, 200000}
 
 func genC09(t *rapid.T) C09Case {
-	c := C09Case{Target: rapid.SampledFrom([]string{"stdio-server", "stdio-server", "get-stream", "legacy-sse", "stdio-client"}).Draw(t, "target")}
+	c := C09Case{Target: rapid.SampledFrom([]string{"stdio-server", "stdio-server", "get-stream", "get-reconnect", "legacy-sse", "stdio-client"}).Draw(t, "target")}
 	if c.Target == "stdio-client" && Excluded("C09/stdio-client-unlocked-error-writer") {
 		CountExcluded("C09/stdio-client-unlocked-error-writer")
 		c.Target = "stdio-server"
@@ -168,6 +169,8 @@ func execC09(c C09Case) *Failure {
 	switch c.Target {
 	case "get-stream":
 		return execC09GetStream(c)
+	case "get-reconnect":
+		return execC09GetReconnect(c)
 	case "legacy-sse":
 		return execC09Legacy(c)
 	case "stdio-client":
@@ -360,6 +363,111 @@ func execC09GetStream(c C09Case) *Failure {
 			if n := seen[fmt.Sprintf("%s%d", nonces[i], r)]; n != 1 {
 				return TimingFailf("C09/get-stream/message-multiset", "%s: notification %s%d recovered %d times from the stream (%d events)", where, nonces[i], r, n, len(evs))
 			}
+		}
+	}
+	return nil
+}
+
+// execC09GetReconnect: senders are parked behind a slow write on the session's listening stream when the client opens a
+// second stream for the session; more senders then write to the new stream while the parked ones get their turn. Every
+// frame on either stream must parse on its own, and a message whose send succeeded is on exactly one of them, once.
+func execC09GetReconnect(c C09Case) *Failure {
+	w := padWorld(ModeSJ, WorldOpt{})
+	defer w.Close()
+	conn, err := w.Connect()
+	if err != nil {
+		return Failf("C09/connect", "%v", err)
+	}
+	hdr := map[string]string{"Accept": "text/event-stream", "Mcp-Session-Id": conn.SessionID}
+	var hold atomic.Bool
+	gate := make(chan struct{})
+	old := StartLive(w.Srv.Handler(), "GET", "http://verif/mcp", hdr, nil, func(kind string, n int) {
+		if hold.Load() {
+			<-gate
+		}
+	})
+	released := false
+	release := func() {
+		if !released {
+			released = true
+			close(gate)
+		}
+	}
+	defer func() { release(); old.PeerGone() }()
+	if !old.WaitFlushedHeader(2 * time.Second) {
+		return TimingFailf("C09/get-not-open", "stream did not open")
+	}
+	waitRegistered(w.Srv, 1)
+	parked := c.Writers/2 + 1
+	fresh := c.Writers - parked + 1
+	type sent struct {
+		nonce string
+		err   error
+	}
+	var mu sync.Mutex
+	var all []sent
+	send := func(nonce string, size int, wg *sync.WaitGroup) {
+		defer wg.Done()
+		e := w.Srv.SendNotification(conn.SessionID, "notifications/verif", map[string]interface{}{"nonce": nonce, "pad": StrSpec{Class: c.Class, N: size, Seed: len(nonce)}.Expand()})
+		mu.Lock()
+		all = append(all, sent{nonce, e})
+		mu.Unlock()
+	}
+	hold.Store(true)
+	var wg sync.WaitGroup
+	for i := 0; i < parked; i++ {
+		wg.Add(1)
+		go send(fmt.Sprintf("P%dx", i), c.Sizes[i%len(c.Sizes)]%9000, &wg)
+	}
+	time.Sleep(2 * time.Millisecond) // one sender is inside its write, the others wait for the stream's lock
+	jit := 0
+	neu := StartLive(w.Srv.Handler(), "GET", "http://verif/mcp", hdr, nil, func(kind string, n int) {
+		if len(c.Jitter) > 0 {
+			jit++
+			time.Sleep(time.Duration(c.Jitter[jit%len(c.Jitter)]) * 20 * time.Microsecond)
+		}
+	})
+	defer neu.PeerGone()
+	if !neu.WaitFlushedHeader(2 * time.Second) {
+		return TimingFailf("C09/get-not-open", "the second stream of the session did not open")
+	}
+	for r := 0; r < c.Rounds; r++ {
+		for i := 0; i < fresh; i++ {
+			wg.Add(1)
+			go send(fmt.Sprintf("F%dr%dx", i, r), c.Sizes[(i+r)%len(c.Sizes)]%9000, &wg)
+		}
+		if r == 0 {
+			time.Sleep(500 * time.Microsecond)
+			release() // the parked senders get their turn while the new stream is being written
+		}
+	}
+	wg.Wait()
+	time.Sleep(3 * time.Millisecond)
+	where := fmt.Sprintf("GET stream replaced with %d senders parked behind a stalled write, then %d x %d senders (sizes %v, class %s; overlapping writes old=%d new=%d)", parked, fresh, c.Rounds, c.Sizes, c.Class, old.Overlaps, neu.Overlaps)
+	seen := map[string]int{}
+	for si, lr := range []*LiveResp{old, neu} {
+		for i, e := range lr.Events() {
+			var m struct {
+				Params struct {
+					Nonce string `json:"nonce"`
+				} `json:"params"`
+			}
+			if err := json.Unmarshal([]byte(e.Data), &m); err != nil || m.Params.Nonce == "" {
+				return Failf("C09/get-stream/torn-event", "%s: event %d of stream %d does not parse on its own (%v): %.200q", where, i, si+1, err, e.Data)
+			}
+			seen[m.Params.Nonce]++
+		}
+		if _, _, body, _, _, _ := lr.Snapshot(); len(lr.Events()) == 0 && bytes.Contains(body, []byte("data:")) && !bytes.HasSuffix(body, []byte("\n\n")) {
+			return Failf("C09/get-stream/torn-event", "%s: stream %d ends inside a frame: %.200q", where, si+1, body)
+		}
+	}
+	if n := old.Overlaps + neu.Overlaps; n > 0 {
+		return Failf("C09/get-stream/concurrent-writes", "%s: %d Write calls on one stream overlapped in time", where, n)
+	}
+	for _, m := range all {
+		n := seen[m.nonce]
+		if n > 1 || (m.err == nil && n != 1) {
+			return TimingFailf("C09/get-stream/message-multiset", "%s: notification %s (send error: %v) recovered %d times from the two streams", where, m.nonce, m.err, n)
 		}
 	}
 	return nil
